@@ -17,7 +17,7 @@ class DiffProp:
     prop_file = None          # e.g. "prop/C11.v"
     model_name = None         # driver table key
     harness_bin = None
-    features = []
+    package = "pure"          # harness/<package>
     gen = None                # module with generate(seed, n), describe(case), nontrivial(case, out)
     counts = {"quick": 1000, "thorough": 20000}
     trusted_base = []
@@ -110,10 +110,10 @@ def run(prop, tier, seed, replay=None):
     proof_ok = not (proof_broken or bad_axioms or hyg or missing_pa or consts_broken)
 
     # (c) model driver + harness
-    ok_d, out_d = vlib.build_driver()
+    ok_d, out_d = vlib.build_driver(prop.model_name)
     if not ok_d:
         notes.append("model extraction/driver build failed:\n" + out_d[-1500:])
-    ok_h, out_h, exe = vlib.build_harness(prop.harness_bin, prop.features)
+    ok_h, out_h, exe = vlib.build_harness(prop.harness_bin, prop.package)
     if not ok_h:
         notes.append("harness build failed:\n" + out_h[-3000:])
 
@@ -140,7 +140,7 @@ def run(prop, tier, seed, replay=None):
 
     impl_rel = None
     if ok_h and tier == "thorough" and prop.thorough_release and not replay:
-        ok_r, out_r, exe_r = vlib.build_harness(prop.harness_bin, prop.features, release=True)
+        ok_r, out_r, exe_r = vlib.build_harness(prop.harness_bin, prop.package, release=True)
         if ok_r:
             impl_rel, _ = vlib.run_impl(exe_r, cpath, len(cases))
         else:
